@@ -423,9 +423,14 @@ Inductive op :=
 | OSetNow (t : Z)          (* the clock shows t (any value: no monotonicity assumed) *)
 | OSweep                   (* CodeStore.CleanExpired *)
 | OPrune                   (* deny.Store.Prune *)
-| OTimers.                 (* every expiry timer that is due has fired: serveWs arms, at admission, a timer of
+| OTimers                  (* every expiry timer that is due has fired: serveWs arms, at admission, a timer of
                               exp - now whole seconds from the connect instant, so the relay itself ends a
                               connection no later than one second after its token's exp *)
+| OFaultedReq (r : request).
+                           (* a request during which the random source fails once: uuid.New panics inside
+                              CodeStore.SubmitToken (its lock is released by the deferred Unlock), i.e. AFTER
+                              DenyStore.AllowIfNotDenied has written the allow list and before any code exists;
+                              requests that mint no code never read the source *)
 
 Inductive out :=
 | OutResp (r : response)
@@ -444,6 +449,12 @@ Definition step_gen (guard : bool) (cfg : config) (s : st) (o : op) : st * out :
   | OSweep => (sweep s, OutUnit)
   | OPrune => (set_reg s (do_prune (reg s)), OutUnit)
   | OTimers => (set_hub s (filter (fun m => negb (m_exp m + 1 <? clock s)%Z) (hub s)), OutUnit)
+  | OFaultedReq r =>
+      let '(s', x) := handle guard cfg s r in
+      match x with
+      | Resp _ (BUri _) => (set_reg s (reg s'), OutResp Panic)
+      | _ => (s', OutResp x)
+      end
   end.
 
 (* the tree with F07 repaired *)
